@@ -260,7 +260,8 @@ func evalInt(v ssa.Value, env *absEnv, f *ssa.Function) (int64, bool) {
 			}
 			return 0, false
 		}
-		if x.Name() == "half" {
+		// the int parameter of a decision function is the half comparison, whatever it is called
+		if bt, ok := x.Type().Underlying().(*types.Basic); ok && bt.Kind() == types.Int {
 			return env.half, true
 		}
 	case *ssa.UnOp:
@@ -289,7 +290,8 @@ func evalBool(v ssa.Value, env *absEnv, f *ssa.Function, p Path) tri {
 			}
 			return tU
 		}
-		if x.Name() == "neg" {
+		// the bool parameter of a decision function is the sign, whatever it is called
+		if bt, ok := x.Type().Underlying().(*types.Basic); ok && bt.Kind() == types.Bool {
 			if env.neg {
 				return tT
 			}
@@ -494,7 +496,13 @@ func ruleDecisionTables(w *World, r *RuleResult) {
 		// dependence of opaque parts: 05up and the half_even tie may depend on
 		// `result` only; nothing may depend on anything but the three parameters
 		deps := w.paramDeps(g)
-		if mode == "Round05Up" && (deps["neg"] || deps["half"]) {
+		readsSignOrHalf := false
+		for _, prm := range g.Params {
+			if bt, ok := prm.Type().Underlying().(*types.Basic); ok && (bt.Kind() == types.Bool || bt.Kind() == types.Int) && deps[prm.Name()] {
+				readsSignOrHalf = true
+			}
+		}
+		if mode == "Round05Up" && readsSignOrHalf {
 			diffs = append(diffs, "05up must depend on the result digit only, but reads neg/half")
 		}
 		if len(diffs) > 0 {
